@@ -461,6 +461,12 @@ impl TextOwn {
     // C15 (structure): what tokenize_query / tokenize_record return
     pub open spec fn wf(&self) -> bool { self.struct_ok() && self.classes@.len() == self.chars@.len() && ws_stems(self.words@) && self.chars_ok() }
 }
+// TK-same (tokeniser link of the recall clauses C03 C04 C13 C14): the normalised characters are the same FUNCTION of the input text for
+// a stored title and for a typed query: reduce(compose(source)), lower-cased as a whole when it has an upper-case character
+pub open spec fn lower_seq(s: Seq<char>) -> Seq<char> {
+    if exists|u: int| 0 <= u < s.len() && sp_upper(#[trigger] s[u]) { Seq::new(s.len(), |t: int| sp_lower(s[t])) } else { s }
+}
+pub open spec fn tok_chars(lang: &Lang, source: Seq<char>) -> Seq<char> { lower_seq(norm_seq(&lang.reduce_map, norm_seq(&lang.compose_map, source))) }
 // C13 link (tokeniser side of Store::search's clause for queries of several words): in a tokenised query every word but the last one is
 // finished — in particular the first word of a query of two or more words
 proof fn lemma_query_fin(t: &TextOwn)
@@ -850,6 +856,7 @@ pub fn tokenize_query(source: &str, lang: &mut Lang) -> (ret: TextOwn)
     // word, alphanumeric edges, every alphanumeric character in a word; a query word is unfinished exactly when it ends the text
     ensures ret.wf(), // [C15 C01 C03]
         ws_fin_query(ret.words@, ret.chars@.len() as int), // [C15 C03]
+        ret.chars@ == tok_chars(&old(lang), source@), // [C15 C03 C04 C13 C14]
         ret.source@.filter(not_nul()) == norm_seq(&old(lang).compose_map, source@).filter(not_nul()), // [C02]
 {
     TextOwn::from_str(source).normalize(lang).fin(false).split(&[CharClass::Whitespace, CharClass::Control, CharClass::Punctuation], lang).strip(&[CharClass::NotAlphaNum], lang).lower().set_pos(lang).set_char_classes(lang).set_stem(lang)
@@ -859,6 +866,7 @@ pub fn tokenize_record(source: &str, lang: &mut Lang) -> (ret: TextOwn)
     requires old(lang).wf(),
     ensures ret.wf(), // [C15 C01 C03]
         ws_fin_record(ret.words@), // [C15]
+        ret.chars@ == tok_chars(&old(lang), source@), // [C15 C03 C04 C13 C14]
         // C02: the stored source text is the title with the language's compositions applied (NUL padding aside): nothing else is
         // dropped, duplicated, reordered or altered
         ret.source@.filter(not_nul()) == norm_seq(&old(lang).compose_map, source@).filter(not_nul()), // [C02]
